@@ -13,6 +13,7 @@ package main
 import (
 	"bytes"
 	"context"
+	"errors"
 	"crypto/sha256"
 	"fmt"
 	"os"
@@ -58,6 +59,44 @@ var (
 type subNet struct{ *tu.TestingNetwork }
 
 func (subNet) Subscribe(spectypes.ValidatorPK) error { return nil }
+
+// flakyStore is the real ibft/storage with an injectable write fault: while failWrites > 0 the next Save* call fails
+// (disk full / badger conflict) instead of reaching the store. Reads and everything else go to the real store.
+type flakyStore struct {
+	qbftstorage.QBFTStore
+	failWrites int
+	failed     int
+}
+
+func (s *flakyStore) fail() bool {
+	if s.failWrites > 0 {
+		s.failWrites--
+		s.failed++
+		return true
+	}
+	return false
+}
+
+func (s *flakyStore) SaveInstance(i *qbftstorage.StoredInstance) error {
+	if s.fail() {
+		return errors.New("injected write failure")
+	}
+	return s.QBFTStore.SaveInstance(i)
+}
+
+func (s *flakyStore) SaveHighestInstance(i *qbftstorage.StoredInstance) error {
+	if s.fail() {
+		return errors.New("injected write failure")
+	}
+	return s.QBFTStore.SaveHighestInstance(i)
+}
+
+func (s *flakyStore) SaveHighestAndHistoricalInstance(i *qbftstorage.StoredInstance) error {
+	if s.fail() {
+		return errors.New("injected write failure")
+	}
+	return s.QBFTStore.SaveHighestAndHistoricalInstance(i)
+}
 
 // ---------------------------------------------------------------- values and decided messages (real BLS)
 
@@ -138,8 +177,10 @@ type node struct {
 	dir    string
 	db     *kv.BadgerDB
 	stores *ibftstorage.QBFTStores
-	store  qbftstorage.QBFTStore
+	store  *flakyStore
 	full   bool
+	// rejectVal makes the runner's/controller's value check reject (the local check changed its mind: slashing DB, beacon state)
+	rejectVal bool
 	cfg    *qbft.Config
 	ctrl   *controller.Controller
 	run    runner.Runner
@@ -153,8 +194,9 @@ func (n *node) openDB() {
 		panic(err)
 	}
 	n.db = db
-	n.stores = ibftstorage.NewStoresFromRoles(db, role)
-	n.store = n.stores.Get(role)
+	n.store = &flakyStore{QBFTStore: ibftstorage.New(db, role.String())}
+	n.stores = ibftstorage.NewStores()
+	n.stores.Add(role, n.store)
 }
 
 // boot = a new process: new controller, new runner, new validator, Validator.Start
@@ -165,10 +207,17 @@ func (n *node) boot(full bool) {
 	n.full = full
 	km := tu.NewTestingKeyManager()
 	net := subNet{tu.NewTestingNetwork()}
-	valCheck := specssv.AttesterValueCheckF(km, spectypes.BeaconTestNetwork, share.ValidatorPubKey, tu.TestingValidatorIndex, share.SharePubKey)
+	specCheck := specssv.AttesterValueCheckF(km, spectypes.BeaconTestNetwork, share.ValidatorPubKey, tu.TestingValidatorIndex, share.SharePubKey)
+	n.rejectVal = false
+	valCheck := func(data []byte) error {
+		if n.rejectVal {
+			return errors.New("value rejected by the local check")
+		}
+		return specCheck(data)
+	}
 	n.cfg = &qbft.Config{
 		Signer: km, SigningPK: ks.Shares[1].GetPublicKey().Serialize(), Domain: tu.TestingSSVDomainType,
-		ValueCheckF: valCheck, ProposerF: specqbft.RoundRobinProposer, Storage: n.store, Network: net,
+		ValueCheckF: valCheck, ProposerF: func(*specqbft.State, specqbft.Round) spectypes.OperatorID { return 1 }, Storage: n.store, Network: net,
 		Timer: roundtimer.NewTestingTimer(), SignatureVerification: true,
 	}
 	n.ctrl = controller.NewController(ident[:], share, n.cfg, full)
@@ -271,11 +320,12 @@ type oracle struct {
 	seen          map[int]bool // heights started or learned decided since the last restart (+ stored highest at restart)
 	started       map[int]bool
 	reloadLearned map[int]bool // learned decided while only the historical store (not the memory) had the instance
+	writeFailed   map[int]bool // a store write for this height failed in this process (injected storage fault)
 	lines         []string     // op lines of the current case
 }
 
 func (o *oracle) newProcess(stored *qbftstorage.StoredInstance) {
-	o.seen, o.started, o.reloadLearned = map[int]bool{}, map[int]bool{}, map[int]bool{}
+	o.seen, o.started, o.reloadLearned, o.writeFailed = map[int]bool{}, map[int]bool{}, map[int]bool{}, map[int]bool{}
 	if stored != nil {
 		o.seen[int(stored.State.Height)] = true
 	}
@@ -505,6 +555,12 @@ func (h *harness) do(line string) {
 		isDecided := controller.IsDecidedMsg(share, msg)
 		ok := n.ctrl.BaseMsgValidation(msg) == nil && (!isDecided || controller.ValidateDecided(n.cfg, msg, share) == nil)
 		op := fmt.Sprintf("decided h=%d r=%d root=%d s=%s ok=%s via=%s", ht, rd, root, signersOut(sg), b01(ok), a["via"])
+		storeFail := a["sf"] == "1"
+		if storeFail {
+			op += " sf=1" // the store fails the first Save* call it receives during this op
+			n.store.failWrites = 1
+			run.Tag("decided:store-write-fails")
+		}
 		o.lines = append(o.lines, op)
 		inMem := n.ctrl.StoredInstances.FindInstance(specqbft.Height(ht)) != nil
 		inHist := false
@@ -532,6 +588,13 @@ func (h *harness) do(line string) {
 				out = "dup"
 			}
 		}
+		if storeFail {
+			if n.store.failWrites == 0 {
+				run.Tag("decided:store-write-failed")
+				o.writeFailed[ht] = true
+			}
+			n.store.failWrites = 0
+		}
 		if ok && isDecided {
 			o.seen[ht] = true
 			reloaded := !inMem && inHist && n.ctrl.StoredInstances.FindInstance(specqbft.Height(ht)) == nil
@@ -541,7 +604,13 @@ func (h *harness) do(line string) {
 			}
 			// "save as highest only if height >= current": a valid decided message at or above the controller height must
 			// end up as the stored highest (otherwise the highest decided instance cannot survive a restart)
-			if ht >= heightBefore {
+			// (not judged for a height whose write was made to fail earlier in this process: the instance is decided in
+			// memory, so a re-delivered certificate is "not new" and the lost write is not repeated — a consequence of
+			// the injected storage fault, outside the property's assumption of a reliable store)
+			if ht >= heightBefore && !storeFail && o.writeFailed[ht] {
+				run.Tag("decided:after-failed-write-not-judged")
+			}
+			if ht >= heightBefore && !storeFail && !o.writeFailed[ht] {
 				if hi := n.highest(); hi == nil || int(hi.State.Height) < ht {
 					sig := "C15/top-decided-not-stored-as-highest"
 					if reloaded {
@@ -555,6 +624,56 @@ func (h *harness) do(line string) {
 		run.Tag("decided:" + out)
 		run.Tag(fmt.Sprintf("decided:rel=%d", rel))
 		run.Seen(fmt.Sprintf("decided/%s/full=%v/rel=%d/mem=%v/hist=%v/k=%d/r=%d", out, n.full, rel, inMem, inHist, len(sg), rd))
+		h.emit(op, out)
+	case "commits":
+		// the running instance decides through individual messages (proposal, prepares, commits of operators 1..quorum)
+		// delivered to the runner's ProcessConsensus; vc=0: the runner's value check rejects from just before the
+		// quorum-completing commit on
+		a := kvs(ws[1:])
+		root, vc := atoi(a["root"]), a["vc"] != "0"
+		op := fmt.Sprintf("commits root=%d vc=%s", root, b01(vc))
+		o.lines = append(o.lines, op)
+		out := "na"
+		st := n.run.GetBaseRunner().State
+		if st != nil && st.RunningInstance != nil {
+			ri := st.RunningInstance
+			rh := ri.GetHeight()
+			fresh := n.ctrl.StoredInstances.FindInstance(rh) == ri && !ri.State.Decided && len(ri.State.CommitContainer.AllMessaged()) == 0 &&
+				ri.CanProcessMessages() && ri.State.Round == specqbft.FirstRound && ri.State.ProposalAcceptedForCurrentRound == nil
+			if fresh {
+				heightBefore := int(n.ctrl.Height)
+				fd, r := fullData(int(rh), root)
+				msgs := tu.SSVDecidingMsgsForHeightWithRoot(r, fd, ident[:], rh, ks)
+				out = "cok"
+				for k, m := range msgs {
+					last := k == len(msgs)-1
+					if last {
+						n.rejectVal = !vc
+					}
+					err := n.run.ProcessConsensus(logger, m)
+					if err != nil && !last {
+						out = "cbad"
+					} else if err != nil {
+						out = "cerr"
+					}
+				}
+				n.rejectVal = false
+				if dec, _ := ri.IsDecided(); dec {
+					// this runner decided height rh itself (it signed prepare and commit for it)
+					o.seen[int(rh)] = true
+					if int(rh) >= heightBefore {
+						if hi := n.highest(); hi == nil || hi.State.Height < rh {
+							run.Violate("C15/top-decided-not-stored-as-highest", fmt.Sprintf("the running instance of height %d decided by a commit quorum but is not reflected in the highest record %s",
+								rh, storedStr(hi)), o.replay()...)
+						}
+					}
+				} else {
+					out = "cbad"
+				}
+			}
+		}
+		run.Tag("commits:" + out)
+		run.Seen(fmt.Sprintf("commits/%s/full=%v", out, n.full))
 		h.emit(op, out)
 	case "compact":
 		ht := atoi(ws[1])
@@ -657,6 +776,20 @@ func (h *harness) genCase(r *hx.Rng) {
 		} else {
 			h.do(fmt.Sprintf("start %d", lo))
 		}
+	case 4: // a future decided message arrives during a failing store write; duties in between must still be refused
+		lo := 1 + r.Intn(5)
+		hi := lo + 2 + r.Intn(4)
+		h.run.Tag("script:future-decided-store-fails")
+		h.do(fmt.Sprintf("start %d", lo))
+		h.do(fmt.Sprintf("decided h=%d r=1 root=%d s=%s ok=1 via=%s sf=1", hi, 100+2*hi, signersOut(subsets[r.Intn(len(subsets))]), via()))
+		h.do(fmt.Sprintf("start %d", lo+1+r.Intn(hi-lo)))
+	case 5: // the running instance decides by a commit quorum while the local value check rejects; restart; the same slot again
+		ht := r.Intn(maxH)
+		h.run.Tag("script:commit-quorum-valcheck-restart")
+		h.do(fmt.Sprintf("start %d", ht))
+		h.do(fmt.Sprintf("commits root=%d vc=%d", 100+2*ht, r.Intn(2)))
+		h.do(fmt.Sprintf("restart full=%s reopen=%s", b01(full), b01(r.Chance(20))))
+		h.do(fmt.Sprintf("start %d", ht))
 	case 2, 3: // certificates of several rounds for one height, compaction or restart in between
 		ht := 1 + r.Intn(maxH-1)
 		h.run.Tag("script:multi-round-certs")
@@ -687,8 +820,14 @@ func (h *harness) genCase(r *hx.Rng) {
 			h.do(fmt.Sprintf("start %d", near()))
 		case c < 27:
 			h.do(fmt.Sprintf("begin %d", near()))
-		case c < 34:
+		case c < 32:
 			h.do("decide")
+		case c < 38:
+			vc := 1
+			if r.Chance(35) {
+				vc = 0
+			}
+			h.do(fmt.Sprintf("commits root=%d vc=%d", 100+2*cur, vc))
 		case c < 80:
 			ht := near()
 			sg := subsets[r.Intn(len(subsets))]
@@ -703,7 +842,11 @@ func (h *harness) genCase(r *hx.Rng) {
 			if r.Chance(5) {
 				ok = 0
 			}
-			h.do(fmt.Sprintf("decided h=%d r=%d root=%d s=%s ok=%d via=%s", ht, 1+r.Intn(3), root, signersOut(sg), ok, via()))
+			sf := ""
+			if r.Chance(8) {
+				sf = " sf=1"
+			}
+			h.do(fmt.Sprintf("decided h=%d r=%d root=%d s=%s ok=%d via=%s%s", ht, 1+r.Intn(3), root, signersOut(sg), ok, via(), sf))
 		case c < 87:
 			h.do(fmt.Sprintf("compact %d", near()))
 		default:
